@@ -8,7 +8,7 @@ PATCH=$(readlink -f "$1"); shift
 S=$(mktemp -d /tmp/mut.XXXXXX)
 trap 'rm -rf "$S"' EXIT
 rsync -a --exclude .git /repo/ "$S/repo/"
-rsync -a --exclude .git --exclude replays --exclude .build /verif/ "$S/verif/"
+rsync -a --exclude .git --exclude replays --exclude .build "${SWEEP_VERIF:-/verif}/" "$S/verif/"
 ( cd "$S/repo" && git apply --whitespace=nowarn "$PATCH" ) || { echo "PATCH-DOES-NOT-APPLY"; exit 2; }
 ( cd "$S/repo" && GOFLAGS=-mod=mod GOPROXY=off go build ./... ) || { echo "PATCH-DOES-NOT-BUILD"; exit 2; }
 rc=0
